@@ -38,7 +38,8 @@ def concretise(req):
     msgs = [dict(name='Item', fields=item_fields),
             # field numbers deliberately do NOT follow the declaration order (the fix-up table is about declaration order)
             dict(name='Req', fields=[dict(name='name', number=7)] + ([dict(name='class', number=9)] if req.get('extra') == 'reserved' else []) +
-                 [dict(name='page_size', type='int32', number=3), dict(name='page_token', number=5), dict(name='filter', required=True, number=1)]),
+                 [dict(name='page_size', type='int32', number=3), dict(name='owner', optional=True, required=True, number=11), dict(name='page_token', number=5),
+                  dict(name='filter', required=True, number=1)]),
             dict(name='ListResp', fields=[dict(name='items', type='Item', repeated=True), dict(name='next_page_token')]),
             dict(name='Meta', fields=[dict(name='p', type='int32')])]
     if req.get('extra') == 'subpkg':
